@@ -4,6 +4,14 @@ _BASE_NOTE = ("Trusted: CrossHair's symbolic models of str/int/list and z3 (for 
               "bounds per condition as written to evidence (pre: lines). Nothing is claimed outside the bounds.")
 
 CLAIMS = {
+    "C13": {
+        "technique": "z3 regex-language equivalence for the live name pattern (unbounded); bounded symbolic execution (CrossHair/z3) of the real SchemaValidator on solver-chosen type shapes and labelled violations",
+        "regex": True,
+        "text": "Names: the language of the live VALID_NAME_RE equals the specification's, for strings of every length (two z3 inclusion queries). Covariance: all 55x55 "
+                "wrapper/base pairs decided against IsValidImplementationFieldType. Rules: every single and every compatible pair of 29 labelled violations, at 5 wrapper depths, 6 bad names, 3 type orders. "
+                "Resolver signatures and validate() cache: all combinations in the stated tables.",
+        "note": _BASE_NOTE + " Schema shapes are the harness's generator family, not all schemas.",
+    },
     "C01": {
         "technique": "bounded symbolic execution (CrossHair/z3): real lexer vs reference lexer on symbolic strings; real parser on solver-chosen token sequences vs Earley recogniser of the June-2018 grammar",
         "text": "Character level: every string up to 2 (quick) / 3 (thorough) symbolic characters, plus shaped prefixes reaching deep lexer states, "
